@@ -160,6 +160,15 @@ pub fn gen(prop: &str, tier: &str, seed: u64, out: &mut Vec<String>) {
                     let mut qs = crate::gen2::query_classes(&mut r, chunks, bs);
                     qs.truncate(if t { 10 } else { 4 });
                     for q in qs {
+                        // a stream that ends early, read through the sync decoder by a caller that keeps polling after the
+                        // failure (collect / log-and-continue): errors, never a panic
+                        {
+                            let src = format!("{b}/{bs}/{}", nat_list(&q));
+                            let total = *item_boundaries(size, bs, &q).last().unwrap();
+                            for _ in 0..2 {
+                                out.push(format!("dec sync {b} {size} {bs} {} {src} 0:0:{}", nat_list(&q), r.below(total + 1)));
+                            }
+                        }
                         for op in ops {
                             if !t && r.chance(2, 3) {
                                 continue;
